@@ -1874,6 +1874,16 @@ let rec find f = function
 | [] -> None
 | x :: tl -> if f x then Some x else find f tl
 
+(** val combine : 'a1 list -> 'a2 list -> ('a1 * 'a2) list **)
+
+let rec combine l l' =
+  match l with
+  | [] -> []
+  | x :: tl ->
+    (match l' with
+     | [] -> []
+     | y :: tl' -> (x, y) :: (combine tl tl'))
+
 (** val firstn : nat -> 'a1 list -> 'a1 list **)
 
 let rec firstn n0 l =
@@ -8114,3 +8124,399 @@ let rec first_rejected s tr i =
     (match step s l with
      | Some s' -> first_rejected s' r (S i)
      | None -> Some i)
+
+type alloc =
+| ALive
+| AFreed
+
+type jphase =
+| JQueued
+| JRunning
+| JDeleted
+| JDropped
+
+type conn = { k_rec : alloc; k_stream : bool; k_registered : bool;
+              k_in_flight : bool; k_closed : bool; k_pending : nat;
+              k_peer_closed : bool; k_jobs : jphase list; k_in_batch : 
+              bool; k_stale : bool; k_answered : nat; k_taken : nat list }
+
+type elstate =
+| EWaiting0
+| EBatch
+
+type estate = { e_conns : conn list; e_loop : elstate }
+
+(** val ep_init : estate **)
+
+let ep_init =
+  { e_conns = []; e_loop = EWaiting0 }
+
+type outcome0 =
+| OStale
+| ODispatched
+| OBusy
+
+type elabel =
+| LAccept of bool
+| LClientSend of nat
+| LClientClose of nat
+| LWait of nat list
+| LEvent of nat * outcome0
+| LFree of nat
+| LBatchEnd
+| LJobStart0 of nat
+| LRearm of nat
+| LDel of nat
+| LStreamDrop of nat
+| LClosedStore of nat
+
+(** val ready : conn -> bool **)
+
+let ready k =
+  (&&) k.k_registered ((||) (Nat.ltb O k.k_pending) k.k_peer_closed)
+
+(** val set_nth0 : 'a1 list -> nat -> 'a1 -> 'a1 list **)
+
+let rec set_nth0 l i x =
+  match l with
+  | [] -> []
+  | y :: r -> (match i with
+               | O -> x :: r
+               | S n0 -> y :: (set_nth0 r n0 x))
+
+(** val with_conn :
+    estate -> nat -> (conn -> conn option) -> estate option **)
+
+let with_conn s c f =
+  match nth_error s.e_conns c with
+  | Some k ->
+    (match f k with
+     | Some k' ->
+       Some { e_conns = (set_nth0 s.e_conns c k'); e_loop = s.e_loop }
+     | None -> None)
+  | None -> None
+
+(** val upd_jobs : conn -> jphase list -> conn **)
+
+let upd_jobs k js =
+  { k_rec = k.k_rec; k_stream = k.k_stream; k_registered = k.k_registered;
+    k_in_flight = k.k_in_flight; k_closed = k.k_closed; k_pending =
+    k.k_pending; k_peer_closed = k.k_peer_closed; k_jobs = js; k_in_batch =
+    k.k_in_batch; k_stale = k.k_stale; k_answered = k.k_answered; k_taken =
+    k.k_taken }
+
+(** val move_job :
+    jphase list -> jphase -> jphase option -> jphase list option **)
+
+let rec move_job js p q =
+  match js with
+  | [] -> None
+  | j :: r ->
+    (match j with
+     | JQueued ->
+       (match p with
+        | JQueued -> Some (match q with
+                           | Some q' -> q' :: r
+                           | None -> r)
+        | _ ->
+          (match move_job r p q with
+           | Some r' -> Some (j :: r')
+           | None -> None))
+     | JRunning ->
+       (match p with
+        | JRunning -> Some (match q with
+                            | Some q' -> q' :: r
+                            | None -> r)
+        | _ ->
+          (match move_job r p q with
+           | Some r' -> Some (j :: r')
+           | None -> None))
+     | JDeleted ->
+       (match p with
+        | JDeleted -> Some (match q with
+                            | Some q' -> q' :: r
+                            | None -> r)
+        | _ ->
+          (match move_job r p q with
+           | Some r' -> Some (j :: r')
+           | None -> None))
+     | JDropped ->
+       (match p with
+        | JDropped -> Some (match q with
+                            | Some q' -> q' :: r
+                            | None -> r)
+        | _ ->
+          (match move_job r p q with
+           | Some r' -> Some (j :: r')
+           | None -> None)))
+
+(** val new_conn : bool -> conn **)
+
+let new_conn add_ok =
+  { k_rec = (if add_ok then ALive else AFreed); k_stream = add_ok;
+    k_registered = add_ok; k_in_flight = false; k_closed = false; k_pending =
+    O; k_peer_closed = false; k_jobs = []; k_in_batch = false; k_stale =
+    false; k_answered = O; k_taken = [] }
+
+(** val all_distinct : nat list -> bool **)
+
+let rec all_distinct = function
+| [] -> true
+| x :: r -> (&&) (negb (existsb (Nat.eqb x) r)) (all_distinct r)
+
+(** val step0 : estate -> elabel -> estate option **)
+
+let step0 s = function
+| LAccept ok ->
+  Some { e_conns = (app s.e_conns ((new_conn ok) :: [])); e_loop = s.e_loop }
+| LClientSend c ->
+  with_conn s c (fun k ->
+    if k.k_peer_closed
+    then None
+    else Some { k_rec = k.k_rec; k_stream = k.k_stream; k_registered =
+           k.k_registered; k_in_flight = k.k_in_flight; k_closed =
+           k.k_closed; k_pending = (S k.k_pending); k_peer_closed = false;
+           k_jobs = k.k_jobs; k_in_batch = k.k_in_batch; k_stale = k.k_stale;
+           k_answered = k.k_answered; k_taken = k.k_taken })
+| LClientClose c ->
+  with_conn s c (fun k -> Some { k_rec = k.k_rec; k_stream = k.k_stream;
+    k_registered = k.k_registered; k_in_flight = k.k_in_flight; k_closed =
+    k.k_closed; k_pending = k.k_pending; k_peer_closed = true; k_jobs =
+    k.k_jobs; k_in_batch = k.k_in_batch; k_stale = k.k_stale; k_answered =
+    k.k_answered; k_taken = k.k_taken })
+| LWait batch ->
+  (match s.e_loop with
+   | EWaiting0 ->
+     if (&&) (all_distinct batch)
+          (forallb (fun c ->
+            match nth_error s.e_conns c with
+            | Some k -> ready k
+            | None -> false) batch)
+     then Some { e_conns =
+            (map (fun ck ->
+              let (i, k) = ck in
+              if existsb (Nat.eqb i) batch
+              then { k_rec = k.k_rec; k_stream = k.k_stream; k_registered =
+                     k.k_registered; k_in_flight = k.k_in_flight; k_closed =
+                     k.k_closed; k_pending = k.k_pending; k_peer_closed =
+                     k.k_peer_closed; k_jobs = k.k_jobs; k_in_batch = true;
+                     k_stale = k.k_stale; k_answered = k.k_answered;
+                     k_taken = k.k_taken }
+              else k) (combine (seq O (length s.e_conns)) s.e_conns));
+            e_loop = EBatch }
+     else None
+   | EBatch -> None)
+| LEvent (c, o) ->
+  (match s.e_loop with
+   | EWaiting0 -> None
+   | EBatch ->
+     with_conn s c (fun k ->
+       if negb k.k_in_batch
+       then None
+       else let actual =
+              if k.k_closed
+              then OStale
+              else if k.k_in_flight then OBusy else ODispatched
+            in
+            (match actual with
+             | OStale ->
+               (match o with
+                | OStale ->
+                  Some { k_rec = k.k_rec; k_stream = k.k_stream;
+                    k_registered = k.k_registered; k_in_flight =
+                    (match actual with
+                     | ODispatched -> true
+                     | _ -> k.k_in_flight); k_closed = k.k_closed;
+                    k_pending = k.k_pending; k_peer_closed = k.k_peer_closed;
+                    k_jobs =
+                    (match actual with
+                     | ODispatched -> app k.k_jobs (JQueued :: [])
+                     | _ -> k.k_jobs); k_in_batch = false; k_stale =
+                    (match actual with
+                     | OStale -> true
+                     | _ -> k.k_stale); k_answered = k.k_answered; k_taken =
+                    k.k_taken }
+                | _ -> None)
+             | ODispatched ->
+               (match o with
+                | ODispatched ->
+                  Some { k_rec = k.k_rec; k_stream = k.k_stream;
+                    k_registered = k.k_registered; k_in_flight =
+                    (match actual with
+                     | ODispatched -> true
+                     | _ -> k.k_in_flight); k_closed = k.k_closed;
+                    k_pending = k.k_pending; k_peer_closed = k.k_peer_closed;
+                    k_jobs =
+                    (match actual with
+                     | ODispatched -> app k.k_jobs (JQueued :: [])
+                     | _ -> k.k_jobs); k_in_batch = false; k_stale =
+                    (match actual with
+                     | OStale -> true
+                     | _ -> k.k_stale); k_answered = k.k_answered; k_taken =
+                    k.k_taken }
+                | _ -> None)
+             | OBusy ->
+               (match o with
+                | OBusy ->
+                  Some { k_rec = k.k_rec; k_stream = k.k_stream;
+                    k_registered = k.k_registered; k_in_flight =
+                    (match actual with
+                     | ODispatched -> true
+                     | _ -> k.k_in_flight); k_closed = k.k_closed;
+                    k_pending = k.k_pending; k_peer_closed = k.k_peer_closed;
+                    k_jobs =
+                    (match actual with
+                     | ODispatched -> app k.k_jobs (JQueued :: [])
+                     | _ -> k.k_jobs); k_in_batch = false; k_stale =
+                    (match actual with
+                     | OStale -> true
+                     | _ -> k.k_stale); k_answered = k.k_answered; k_taken =
+                    k.k_taken }
+                | _ -> None))))
+| LFree c ->
+  (match s.e_loop with
+   | EWaiting0 -> None
+   | EBatch ->
+     with_conn s c (fun k ->
+       if k.k_stale
+       then Some { k_rec = AFreed; k_stream = k.k_stream; k_registered =
+              k.k_registered; k_in_flight = k.k_in_flight; k_closed =
+              k.k_closed; k_pending = k.k_pending; k_peer_closed =
+              k.k_peer_closed; k_jobs = k.k_jobs; k_in_batch = k.k_in_batch;
+              k_stale = false; k_answered = k.k_answered; k_taken =
+              k.k_taken }
+       else None))
+| LBatchEnd ->
+  (match s.e_loop with
+   | EWaiting0 -> None
+   | EBatch ->
+     if forallb (fun k -> (&&) (negb k.k_in_batch) (negb k.k_stale)) s.e_conns
+     then Some { e_conns = s.e_conns; e_loop = EWaiting0 }
+     else None)
+| LJobStart0 c ->
+  with_conn s c (fun k ->
+    match move_job k.k_jobs JQueued (Some JRunning) with
+    | Some js ->
+      Some
+        (match k.k_pending with
+         | O -> upd_jobs k js
+         | S p ->
+           { k_rec = k.k_rec; k_stream = k.k_stream; k_registered =
+             k.k_registered; k_in_flight = k.k_in_flight; k_closed =
+             k.k_closed; k_pending = p; k_peer_closed = k.k_peer_closed;
+             k_jobs = js; k_in_batch = k.k_in_batch; k_stale = k.k_stale;
+             k_answered = (S k.k_answered); k_taken =
+             (app k.k_taken (k.k_answered :: [])) })
+    | None -> None)
+| LRearm c ->
+  with_conn s c (fun k ->
+    match move_job k.k_jobs JRunning None with
+    | Some js ->
+      Some { k_rec = k.k_rec; k_stream = k.k_stream; k_registered =
+        k.k_registered; k_in_flight = false; k_closed = k.k_closed;
+        k_pending = k.k_pending; k_peer_closed = k.k_peer_closed; k_jobs =
+        js; k_in_batch = k.k_in_batch; k_stale = k.k_stale; k_answered =
+        k.k_answered; k_taken = k.k_taken }
+    | None -> None)
+| LDel c ->
+  with_conn s c (fun k ->
+    match move_job k.k_jobs JRunning (Some JDeleted) with
+    | Some js ->
+      Some { k_rec = k.k_rec; k_stream = k.k_stream; k_registered = false;
+        k_in_flight = k.k_in_flight; k_closed = k.k_closed; k_pending =
+        k.k_pending; k_peer_closed = k.k_peer_closed; k_jobs = js;
+        k_in_batch = k.k_in_batch; k_stale = k.k_stale; k_answered =
+        k.k_answered; k_taken = k.k_taken }
+    | None -> None)
+| LStreamDrop c ->
+  with_conn s c (fun k ->
+    match move_job k.k_jobs JDeleted (Some JDropped) with
+    | Some js ->
+      Some { k_rec = k.k_rec; k_stream = false; k_registered =
+        k.k_registered; k_in_flight = k.k_in_flight; k_closed = k.k_closed;
+        k_pending = k.k_pending; k_peer_closed = k.k_peer_closed; k_jobs =
+        js; k_in_batch = k.k_in_batch; k_stale = k.k_stale; k_answered =
+        k.k_answered; k_taken = k.k_taken }
+    | None -> None)
+| LClosedStore c ->
+  with_conn s c (fun k ->
+    match move_job k.k_jobs JDropped None with
+    | Some js ->
+      Some { k_rec = k.k_rec; k_stream = k.k_stream; k_registered =
+        k.k_registered; k_in_flight = k.k_in_flight; k_closed = true;
+        k_pending = k.k_pending; k_peer_closed = k.k_peer_closed; k_jobs =
+        js; k_in_batch = k.k_in_batch; k_stale = k.k_stale; k_answered =
+        k.k_answered; k_taken = k.k_taken }
+    | None -> None)
+
+(** val conn_of : estate -> nat -> conn option **)
+
+let conn_of s c =
+  nth_error s.e_conns c
+
+(** val rec_live : estate -> nat -> bool **)
+
+let rec_live s c =
+  match conn_of s c with
+  | Some k -> (match k.k_rec with
+               | ALive -> true
+               | AFreed -> false)
+  | None -> false
+
+(** val stream_open : estate -> nat -> bool **)
+
+let stream_open s c =
+  match conn_of s c with
+  | Some k -> k.k_stream
+  | None -> false
+
+(** val safe : estate -> elabel -> bool **)
+
+let safe s = function
+| LEvent (c, _) -> rec_live s c
+| LFree c -> rec_live s c
+| LJobStart0 c -> (&&) (rec_live s c) (stream_open s c)
+| LRearm c -> rec_live s c
+| LDel c -> rec_live s c
+| LStreamDrop c -> (&&) (rec_live s c) (stream_open s c)
+| LClosedStore c -> rec_live s c
+| _ -> true
+
+type verdict =
+| VAccepted of estate
+| VRejected of nat
+| VUnsafe of nat
+
+(** val replay : estate -> elabel list -> nat -> verdict **)
+
+let rec replay s tr i =
+  match tr with
+  | [] -> VAccepted s
+  | l :: r ->
+    (match step0 s l with
+     | Some s' -> if safe s l then replay s' r (S i) else VUnsafe i
+     | None -> VRejected i)
+
+(** val all_ended : estate -> bool **)
+
+let all_ended s =
+  match s.e_loop with
+  | EWaiting0 ->
+    forallb (fun k ->
+      match k.k_jobs with
+      | [] -> negb k.k_registered
+      | _ :: _ -> false) s.e_conns
+  | EBatch -> false
+
+(** val live_records : estate -> nat **)
+
+let live_records s =
+  length
+    (filter (fun k -> match k.k_rec with
+                      | ALive -> true
+                      | AFreed -> false) s.e_conns)
+
+(** val open_streams : estate -> nat **)
+
+let open_streams s =
+  length (filter (fun c -> c.k_stream) s.e_conns)
